@@ -16,11 +16,16 @@ func buildEcho(cs *caseState, sp godi.Provider) http.Handler {
 	look := func(c echo.Context) *reqState { return cs.lookup(c.Request().Header.Get(hdrReq)) }
 
 	var so []godiecho.Option
-	if o.ErrH != ErrHDefault {
+	if o.ErrH == ErrHNil {
+		so = append(so, godiecho.WithErrorHandler(nil))
+	} else if o.ErrH != ErrHDefault {
 		so = append(so, godiecho.WithErrorHandler(func(c echo.Context, err error) error {
 			look(c).onErrH(err)
 			return c.NoContent(stErrH)
 		}))
+	}
+	if o.CloseH == "nil-option" {
+		so = append(so, godiecho.WithCloseErrorHandler(nil))
 	}
 	if o.CloseH == "custom" {
 		so = append(so, godiecho.WithCloseErrorHandler(func(error) { cs.closeErrH.Add(1) }))
